@@ -595,11 +595,18 @@ class SymNum:
     def __hash__(self) -> int:
         return hash(self.concrete())
 
+    def _trunc_value(self) -> int:
+        """int(x): only the truncated value is needed, so only it is enumerated (bounded whenever x is)."""
+        if isinstance(self.tag, bool) and self.tag:
+            return int(self.concrete())
+        t = z3.If(self.z >= 0, z3.ToReal(z3.ToInt(self.z)), -z3.ToReal(z3.ToInt(-self.z)))
+        return int(cur().realize(t))
+
     def __int__(self) -> int:
-        return int(self.concrete())
+        return self._trunc_value()
 
     def __trunc__(self) -> int:
-        return int(self.concrete())
+        return self._trunc_value()
 
     def __index__(self) -> int:
         if not self.is_int():
@@ -710,6 +717,7 @@ def explore(
     max_paths: int = 200000,
     max_steps: int = 20000,
     deadline: Optional[float] = None,
+    order: str = "dfs",
 ) -> List[PathResult]:
     """Run `harness` on every feasible path.  Returns one PathResult per completed/aborted path."""
     stats = stats if stats is not None else Stats()
@@ -722,7 +730,9 @@ def explore(
             stats.budget += 1
             out.append(PathResult("budget", detail=f"{len(stack)} prefixes left unexplored"))
             break
-        prefix = stack.pop()
+        # dfs: newest prefix first; bfs: shortest (oldest) first - under a budget this explores the short
+        # paths (few retries) before the long ones
+        prefix = stack.pop() if order == "dfs" else stack.pop(0)
         s.push()
         c = Ctx(s, prefix, stats, max_steps=max_steps)
         Ctx.cur = c
